@@ -55,9 +55,9 @@ ASSUMPTIONS = [
 ]
 REQUIRED = {"exclude.formula": {"quick": 100000, "thorough": 3000000}, "run_is_not_exclude": 1000,
             "composite.any_excludes": 1000, "custom.schema": 500, "provider.composite_cache": 50,
-            "provider.lazy_reevaluated": 50,
+            "provider.lazy_reevaluated": 50, "provider.values_overridden_from_userdata": 100,
             "python.providers": 20, "unknown_or_plain_never_excludes": 1000}
-REQUIRED_SEEN = {"composite_members_given_as": ["list", "tuple", "generator", "filter", "dict_values"], "custom_notation_given_by": ["arguments", "subclass_attributes", "subclass_separator_attribute"]}
+REQUIRED_SEEN = {"exclude_reason": ["on", "off"], "composite_first_member": ["get_only_object", "dict_like"], "composite_members_given_as": ["list", "tuple", "generator", "filter", "dict_values"], "custom_notation_given_by": ["arguments", "subclass_attributes", "subclass_separator_attribute"]}
 EXHAUSTIVE = True
 EXHAUSTIVE_SCOPE = "all tag multisets up to the size bound over the pool x all provider configurations of the grid"
 NSHARDS = {"quick": 8, "thorough": 16}
@@ -279,6 +279,11 @@ def run(spec, mon):
             continue
         flavour = ("dict", "atvp", "composite")[ci % 3]
         matcher = tm.ActiveTagMatcher(lab.provider(config, flavour))
+        if ci % 4 == 1:
+            matcher.use_exclude_reason = True       # (documented switch: also say WHY -- the verdict is the same)
+            mon.seen("exclude_reason", "on")
+        else:
+            mon.seen("exclude_reason", "off")
         strict = tm.ActiveTagMatcher(lab.provider(config, "dict"), ignore_unknown_categories=False)
         members = [tm.ActiveTagMatcher(lab.provider({k: (v if k in ("os", "a.b") else None) for k, v in config.items()}, "dict")),
                    tm.ActiveTagMatcher(lab.provider({k: (v if k in ("n", "flag") else None) for k, v in config.items()}, "dict")),
@@ -312,7 +317,10 @@ def run(spec, mon):
             want = ref_exclude(config, tags)
             try:
                 got = matcher.should_exclude_with(texts)
-                mon.check("exclude.formula", got == want, lambda: dict(case=case, want=want, got=got))
+                mon.check("exclude.formula", got == want, lambda: dict(case=case, want=want, got=got, exclude_reason_on=bool(matcher.use_exclude_reason)))
+                if matcher.use_exclude_reason:
+                    mon.check("exclude.reason_given_iff_excluded", bool(matcher.exclude_reason) == bool(got) or not got,
+                              lambda: dict(case=case, excluded=got, reason=matcher.exclude_reason))
                 if not known_active:
                     mon.check("unknown_or_plain_never_excludes", got is False, lambda: dict(case=case, got=got))
                 if (mi + ci) % 5 == 0:
@@ -377,6 +385,44 @@ def run(spec, mon):
             mon.check("custom.schema", got == want, lambda: dict(case=case, want=want, got=got))
         except Exception as ex:
             mon.check("custom.schema", False, dict(case=case, error=repr(ex)))
+
+    # ---- current values overridden from user data (setup_active_tag_values, the documented -D browser=firefox recipe) on a
+    #      composite whose FIRST member only knows get() ------------------------------------------------------------------
+    class GetOnlyProvider(object):
+        def __init__(self, data):
+            self._data = data
+
+        def get(self, category, default=None):
+            return self._data.get(category, default)
+    for k in range(30 if tier == "quick" else 600):
+        first = GetOnlyProvider({"stage": "develop"}) if k % 2 == 0 else {"stage": "develop"}
+        members = [first, {"browser": "chrome", "os": "linux"}, tm.ActiveTagValueProvider({"n": "3"})]
+        if k % 3 == 1:
+            members = members[1:] + members[:1]
+        cp = tm.CompositeActiveTagValueProvider(members)
+        userdata = {"browser": rng.choice(["firefox", "safari"]), "unrelated": "x"}
+        if k % 4 == 3:
+            userdata["os"] = "win"
+        try:
+            tm.setup_active_tag_values(cp, userdata)
+            m = tm.ActiveTagMatcher(cp)
+            if k % 4 == 1:
+                m.use_exclude_reason = True
+            cur = {"browser": userdata["browser"], "os": userdata.get("os", "linux"), "stage": "develop"}
+            rows = []
+            for tags in (["use.with_browser=%s" % userdata["browser"]], ["use.with_browser=chrome"], ["not.with_browser=%s" % userdata["browser"]],
+                         ["use.with_os=linux", "use.with_browser=%s" % userdata["browser"]], ["use.with_browser=chrome", "use.with_os=%s" % cur["os"]],
+                         ["use.with_stage=develop", "use.with_browser=chrome", "use.with_zz=1"]):
+                cfg = {c: ("str", v) for c, v in cur.items()}
+                tspec = [A(t.split(".")[0], t.split("with_")[1].split("=")[0], t.split("=")[1]) for t in tags]
+                rows.append((tags, m.should_exclude_with(tags), ref_exclude(cfg, tspec)))
+            case = {"kind": "values-from-userdata", "first_member": type(first).__name__, "userdata": userdata, "exclude_reason_on": k % 4 == 1}
+            mon.case(("userdata-values", k % 12, userdata["browser"]), True)
+            mon.check("provider.values_overridden_from_userdata", all(g == w for _t, g, w in rows),
+                      lambda: dict(case=case, rows=[(t, g, w) for t, g, w in rows if g != w]))
+            mon.seen("composite_first_member", "get_only_object" if k % 2 == 0 and k % 3 != 1 else "dict_like")
+        except Exception as ex:
+            mon.check("provider.values_overridden_from_userdata", False, dict(error=repr(ex), userdata=userdata))
 
     # ---- composite provider: first provider wins, value cached, lazy values re-evaluated ------
     for k in range(20 if tier == "quick" else 200):
